@@ -282,7 +282,6 @@ type c40Inst struct {
 	m       c40Model
 	rows    map[string]c40Lane // stored lanes of the fsm path, read back
 	broken  bool
-	history []string
 }
 
 func c40New(r *ev.R, st *c40Stats, ids []string) mc.Instance {
@@ -452,8 +451,11 @@ func (in *c40Inst) Apply(label string, _ *mc.Env) (string, error) {
 		if e.typ == metadb.EventTypeStreamFinish {
 			in.st.finishes.Add(1)
 		}
-		if int64(want.Seq) > in.st.maxSeq.Load() {
-			in.st.maxSeq.Store(int64(want.Seq))
+		for {
+			cur := in.st.maxSeq.Load()
+			if int64(want.Seq) <= cur || in.st.maxSeq.CompareAndSwap(cur, int64(want.Seq)) {
+				break
+			}
 		}
 		if e.typ == metadb.EventTypeStreamDelta && laneExisted && laneBefore.Payload != "" && laneBefore.LastType == metadb.EventTypeStreamDelta {
 			in.st.deltaAccumulated.Add(1)
